@@ -12,6 +12,7 @@ pub mod drive_ref;
 pub mod fixtures;
 pub mod kat;
 pub mod mirror;
+pub mod ownprover;
 pub mod paths;
 pub mod model;
 pub mod program;
